@@ -10,8 +10,8 @@ from ..oracles import graph as og
 
 PROPERTY = "C11"
 RULE = ("Cases = (routine, matrix, parameters, seed). Connected variants: connected trees + 0..3 chords, rings, barbells (undirected) / directed "
-        "rings + chords and two directed cycles sharing a node (strongly connected by construction), binary or dyadic weights, shuffled labels, "
-        "itr in {1,2,5}, D None or random symmetric integer matrix. Rejection inputs: disconnected symmetric and asymmetric matrices for the "
+        "rings + chords and two directed cycles sharing a node (strongly connected by construction), binary or dyadic weights (also nearly equal weights 1 + k 2^-20 and everything times 2^-40), shuffled labels, "
+        "itr in {1,2,5}, D None or random symmetric integer matrix stored as float64 / int64 / uint8 / uint16; masks of ones, booleans, fractions, or +1/-1 entries summing to zero. Rejection inputs: disconnected symmetric and asymmetric matrices for the "
         "undirected variants. latmio_und/latmio_dir on arbitrary graphs for the cost clause; randomize_graph_partial_und with random masks. "
         "Oracle = own BFS (strong) connectivity of the output and, through the BCTPY_VERIF hook, after EVERY accepted swap; total of weight x "
         "distance-to-diagonal never increases (end to end and swap by swap, exact arithmetic); no new connection in a masked cell. "
@@ -102,6 +102,9 @@ def check(case, ctx):
 
     if name == "randomize_graph_partial_und":
         B = np.array(case["B"], dtype=float)
+        if case.get("B_kind") == "bool":
+            B = B != 0
+        ctx.label("mask:" + str(case.get("B_kind", "ones")))
         with rewire.SwapRecorder() as rec:
             o = ctx.call(fn, gen.layout(W.copy(), case.get("order")), B, case["maxswap"], seed=seed, timeout=1.5)
         if o.status == "timeout":
@@ -133,9 +136,12 @@ def check(case, ctx):
     latt = name in rewire.LATMIO
     D = case.get("D")
     D = None if D is None else np.array(D, dtype=float)
+    ctx.label("weights:" + str(case.get("weights", "dyadic")))
+    if D is not None:
+        ctx.label("D-dtype:" + case.get("D_dtype", "float64"))
     with rewire.SwapRecorder() as rec:
         if latt:
-            o = ctx.call(fn, gen.layout(W.copy(), case.get("order")), case["itr"], D=D, seed=seed)
+            o = ctx.call(fn, gen.layout(W.copy(), case.get("order")), case["itr"], D=(None if D is None else D.astype(case.get("D_dtype", "float64"))), seed=seed)
         else:
             o = ctx.call(fn, gen.layout(W.copy(), case.get("order")), case["itr"], seed=seed)
     if o.status == "timeout":
@@ -231,6 +237,20 @@ def cases(draw, names, nmax):
         from . import c01
         c = draw(c01.cases([name], nmax))
         c["kind"] = "mask"
+        # what a mask entry looks like: any nonzero value forbids the cell (also negative ones, also when they sum to zero)
+        bk = draw(st.sampled_from(["signed-balanced", "ones", "bool", "fractions", "signed-balanced"]))
+        B = np.array(c["B"], dtype=float)
+        if bk == "signed-balanced":
+            cells = [(i, j) for (i, j) in gen.pairs(len(B), False) if B[i, j] != 0]
+            if len(cells) % 2:
+                i, j = cells.pop()
+                B[i, j] = B[j, i] = 0
+            for q, (i, j) in enumerate(cells):
+                B[i, j] = B[j, i] = 1.0 if q % 2 == 0 else -1.0
+        elif bk == "fractions":
+            B = B * 0.25
+        c["B"] = B
+        c["B_kind"] = bk
         return c
     if directed:
         A, fam = draw(rewire.dir_adj(5, nmax, connected))
@@ -238,9 +258,15 @@ def cases(draw, names, nmax):
         A, fam = draw(rewire.und_adj(5, nmax, connected))
     A = rewire.shuffle(draw, A)
     n = len(A)
-    W = draw(gen.weights_for(A, draw(st.sampled_from(["bin", "dyadic"])), directed))
+    wk = draw(st.sampled_from(["dyadic", "bin", "near-equal", "tiny", "near-equal-tiny"]))
+    W = draw(gen.weights_for(A, "bin" if wk == "bin" else "dyadic", directed))
+    if wk.startswith("near-equal"):
+        # weights within 1e-5 of each other (1 + k 2^-20): costs of competing swaps are close but not equal; all sums stay exact
+        W = np.where(W != 0, 1.0 + (np.round(W * 8) % 8) * 2.0 ** -20, 0.0)
+    if wk.endswith("tiny"):
+        W = W * 2.0 ** -40
     case = {"fn": name, "kind": "rewire", "W": W, "itr": draw(st.sampled_from([2, 1, 5])), "seed": seed, "family": fam,
-            "order": draw(st.sampled_from(gen.ORDERS))}
+            "order": draw(st.sampled_from(gen.ORDERS)), "weights": wk}
     if name in rewire.LATMIO:
         if draw(st.booleans()):
             vals = draw(st.lists(st.integers(0, 6), min_size=n * (n - 1) // 2, max_size=n * (n - 1) // 2))
@@ -248,6 +274,7 @@ def cases(draw, names, nmax):
             for (i, j), v in zip(gen.pairs(n, False), vals):
                 D[i, j] = D[j, i] = v
             case["D"] = D
+            case["D_dtype"] = draw(st.sampled_from(["uint8", "float64", "int64", "uint16", "float64"]))      # distances are often stored as small integers
         else:
             case["D"] = None
     return case
